@@ -39,7 +39,7 @@ private:
 
     int push(Var &var)
     {
-      if (ptr >= 3) { return -1; }
+      if (ptr >= STACK_LEN) { return -1; }
       stack[ptr++] = var;
 
       return 0;
@@ -47,7 +47,7 @@ private:
 
     int push_front(Var &var)
     {
-      if (ptr >= 3) { return -1; }
+      if (ptr >= STACK_LEN) { return -1; }
 
       for (int n = ptr; n > 0; n--)
       {
@@ -133,7 +133,11 @@ private:
       }
     }
 
-    Var stack[3];
+    // Operators waiting on the stack always bind tighter than the ones
+    // below them, so the depth is bounded by the number of precedence levels.
+    static const int STACK_LEN = Operator::PREC_UNSET + 2;
+
+    Var stack[STACK_LEN];
     int ptr;
   };
 
@@ -144,10 +148,12 @@ private:
     {
     }
 
-    void push(Operator &oper)
+    int push(Operator &oper)
     {
-      assert(ptr < 2);
+      if (ptr >= STACK_LEN) { return -1; }
       stack[ptr++] = oper;
+
+      return 0;
     }
 
     Operator pop()
@@ -176,6 +182,12 @@ private:
       return 0;
     }
 
+    int get_last_precedence()
+    {
+      assert(ptr > 0);
+      return stack[ptr - 1].precedence;
+    }
+
     int size()      { return ptr; }
     bool is_empty() { return ptr == 0; }
 
@@ -189,7 +201,9 @@ private:
     }
 
   private:
-    Operator stack[2];
+    static const int STACK_LEN = Operator::PREC_UNSET + 1;
+
+    Operator stack[STACK_LEN];
     int ptr;
   };
 
